@@ -137,6 +137,7 @@ func NewDispatcher(option DispatcherOption) *dispatcher {
 func (d *dispatcher) getLRU(key []byte) *httpLRUCache {
 	// 计算hash值
 	index := MemHash(key) % d.zoneSize
+	index = verifShard(key, index, d.zoneSize)
 	// 从预定义的列表中取对应的缓存
 	return d.list[index]
 }
